@@ -115,6 +115,9 @@ func runListing(m *Material, r listRow) (accepted bool, errText string, listed, 
 			listedFor = listed
 		}
 		golden := gs.Proto()
+		if r.Digest == "absent" {
+			golden.Digest = nil // authentically signed, but no firmware digest is endorsed
+		}
 		e := Endorse(golden, m.S)
 		eb, _ := proto.Marshal(e)
 		meas := measOf(r.Meas)
@@ -124,6 +127,8 @@ func runListing(m *Material, r listRow) (accepted bool, errText string, listed, 
 			want = Meas("fw")
 		case "diff":
 			want = Meas("other-fw")
+		case "absent":
+			want = Meas("fw")
 		}
 		att := &spb.Attestation{Report: Report(meas), CertificateChain: &spb.CertificateChain{VcekCert: m.Vcek.Raw}}
 		if r.Table == "other" {
@@ -284,7 +289,7 @@ func RunC02(run *vk.Run) {
 		if acc && named && len(listedFor) == 0 {
 			run.Violation("unlisted-config-accepted:"+r.Entry, fmt.Sprintf("%s accepts although the endorsement lists nothing for the named configuration: %+v", r.Entry, r), rep)
 		}
-		if acc && r.Tech == "snp" && r.Digest == "diff" && (r.Entry == "EndorsementProto" || r.Entry == "SNPFunc") {
+		if acc && r.Tech == "snp" && (r.Digest == "diff" || r.Digest == "absent") && (r.Entry == "EndorsementProto" || r.Entry == "SNPFunc") {
 			run.Violation("digest-mismatch-accepted:"+r.Entry, fmt.Sprintf("%s accepts although the expected firmware digest differs: %+v", r.Entry, r), rep)
 		}
 		if policyBad != "" {
